@@ -9,6 +9,7 @@ import (
 	"math/big"
 	"strconv"
 	"strings"
+	"unicode"
 	"unicode/utf8"
 
 	"github.com/ohler55/slip"
@@ -470,14 +471,15 @@ func (c *control) dirCase(colon, at bool, params []any) {
 		caser := cases.Title(language.English)
 		c.out = append(c.out, caser.Bytes(c2.out)...)
 	case at:
-		c2.out = bytes.ToLower(c2.out)
-		caser := cases.Title(language.English)
-		if i := bytes.Index(c2.out, []byte{' '}); 0 < i {
-			c.out = append(c.out, caser.Bytes(c2.out[:i])...)
-			c.out = append(c.out, c2.out[i:]...)
-		} else {
-			c.out = append(c.out, caser.Bytes(c2.out)...)
+		// Only the first word is capitalized whatever separates the words.
+		rs := []rune(string(bytes.ToLower(c2.out)))
+		for i, r := range rs {
+			if unicode.IsLetter(r) || unicode.IsDigit(r) {
+				rs[i] = unicode.ToUpper(r)
+				break
+			}
 		}
+		c.out = append(c.out, string(rs)...)
 	default:
 		c.out = append(c.out, bytes.ToLower(c2.out)...)
 	}
